@@ -12,7 +12,7 @@ REPO = os.environ.get('VERIF_REPO', '/repo')
 SPEC = os.path.join(VERIF, 'spec')
 CACHE = os.path.join(VERIF, '.cache')
 GEN = os.path.join(VERIF, 'gen')
-RLIMIT = '30'
+RLIMIT = '100'
 
 
 def load_spec():
@@ -193,7 +193,7 @@ def build(repo=REPO, force=False, canary=None, verify_only=None, quiet=False, ex
     """Assemble + verus.  Returns result dict (JSON-serialisable)."""
     spec_hash = gen.tree_hash(repo, extra_dirs=[SPEC, HERE])
     key = spec_hash + ('' if not canary else '-canary-' + re.sub(r'\W', '_', canary)) + \
-        ('' if not verify_only else '-only-' + re.sub(r'\W', '_', '-'.join(verify_only))) + ('' if not verify_fn else '-fn-' + re.sub(r'\W', '_', verify_fn))
+        ('' if not verify_only else '-only-' + re.sub(r'\W', '_', '-'.join(verify_only))) + ('' if not verify_fn else '-fn-' + re.sub(r'\W', '_', verify_fn)) + ('' if not extra_args else '-x-' + re.sub(r'\W', '_', '-'.join(extra_args)))
     os.makedirs(CACHE, exist_ok=True); os.makedirs(GEN, exist_ok=True)
     cpath = os.path.join(CACHE, key + '.json')
     lock = open(os.path.join(CACHE, key + '.lock'), 'w')
@@ -213,7 +213,7 @@ def build(repo=REPO, force=False, canary=None, verify_only=None, quiet=False, ex
             try: os.remove(f)
             except OSError: pass
         open(gpath, 'w').write(asm['text'])
-        args = ['--multiple-errors', '30', '--num-threads', '16', '--rlimit', RLIMIT] + list(extra_args)
+        args = ['--multiple-errors', '30', '--num-threads', '16'] + (['--rlimit', RLIMIT] if '--rlimit' not in extra_args else []) + list(extra_args)
         if verify_only:
             for m in verify_only: args += ['--verify-only-module', m]
         if verify_fn:
